@@ -14,6 +14,7 @@ open Lean Pywbem.Proto Pywbem.Model Pywbem.Model.XmlText Pywbem.Model.CimJson
   {"op":"invoke","dn":cps,"method":arg,"obj":arg,"params":[mparam],"codec":tables,"kr":[[kind,bits,cps],…]}
   {"op":"export","arg":arg,"codec":tables}
         -> {"ok":{"headers":[[k,v],…],"xml":cps,"valid":b,"why":…,"agree":b}} | {"exc":name}
+  {"op":"lpost","msgid":cps,"method":cps,"params":[[cps,isInstance],…],"full":b,"desc":cps} -> {"xml":cps,"valid":b,"why":…}
   {"op":"lrsp","kind":"ok"|"err","msgid":cps,"method":cps,"code":n,"desc":cps} -> {"xml":cps,"valid":b,"why":…}
   {"op":"val","val":value,"codec":tables}                     -> {"ok":{"xml":cps,"valid":b,"why":…}} | {"exc":name}   (tocimxml(value))
   {"op":"par","text":cps}                                     -> {"tree":xml|null,"valid":b,"why":…}   (XmlParse.par on a document text)
@@ -118,6 +119,14 @@ def handle (j : Json) : Json :=
     reqOutJ (sendInvoke C (keyCodecOfJson j) ((getChars j "dn").getD []) (argOfJson (getField j "method"))
       (argOfJson (getField j "obj")) ((getArr j "params").map mparamOfJson))
   | some "export" => reqOutJ (sendExport C (argOfJson (getField j "arg")))
+  | some "lpost" =>
+    -- do_POST after a successful parse: which response
+    let params : List (Str × Bool) := (getArr j "params").filterMap (fun e => match e with
+      | .arr a => some ((jsonToChars? (a[0]!)).getD [], match a[1]! with | .bool b => b | _ => false)
+      | _ => none)
+    let t := listenerRespond ((getChars j "msgid").getD []) ((getChars j "method").getD []) params
+      ((getBool j "full").getD false) ((getChars j "desc").getD [])
+    Json.mkObj ([("xml", cpsToJson t.ser)] ++ validJ t)
   | some "lrsp" =>
     let msgid := (getChars j "msgid").getD []
     let m := (getChars j "method").getD []
